@@ -324,7 +324,7 @@ func c17Gen(rng *gen.Rng, population string) *c17Hist {
 			burst--
 			p = burstPath
 		}
-		render := rng.Pick([]string{"top", "direct", "direct", "direct", "funcparam", "funcglobal", "funcdirect", "nested", "nested", "if", "ifdirect", "for", "fordirect", "shared", "shared", "unused", "elsedirect"})
+		render := rng.Pick([]string{"top", "direct", "direct", "direct", "funcparam", "funcglobal", "funcdirect", "nested", "nested", "if", "ifdirect", "for", "fordirect", "shared", "shared", "unused", "elsedirect", "scopes"})
 		if inBurst {
 			render = rng.Pick([]string{"direct", "direct", "top"})
 		}
@@ -727,6 +727,18 @@ func (h *c17Hist) render(seed uint64) []*c17Segment {
 			}
 			return fmt.Sprintf("func fi%d(q%d string) string {\nv%d := q%d + \"!\"\nw%d := v%d\nreturn w%d\n}\nfunc fn%d(%s) {\nu%d := fi%d(\"k\")\n%sprint(\"<<N>>\" + u%d)\n}\nfn%d(%s)\n",
 				id, id, id, id, id, id, id, id, strings.Join(ps, ", "), id, id, body, id, id, strings.Join(as, ", "))
+		case "scopes":
+			// one identifier, two scopes: a function has a local with the name of a variable that
+			// is defined in a top-level block, and the function is called between the definition
+			// and the use of the block variable
+			nm := rng.Pick([]string{"tmpv", "scratch", "acc", "cur", "buf", "line0"}) // (no theme and no generated identifier uses these: a block variable may not shadow a global)
+			var g strings.Builder
+			fmt.Fprintf(&g, "func fn%d(a%d string) string {\n%s := a%d + \"!\"\nreturn %s\n}\n", id, id, nm, id, nm)
+			for _, p := range params[1:] {
+				fmt.Fprintf(&g, "%s := %s\n", p[0], p[1])
+			}
+			fmt.Fprintf(&g, "if true {\n%s := %s\nk%d := fn%d(\"k\")\n%sprint(\"<<N>>\" + k%d)\n}\n", nm, params[0][1], id, id, strings.ReplaceAll(body, params[0][0], nm), id)
+			return g.String()
 		case "unused":
 			// the operation happens in a function whose VALUE is an operand of an expression that
 			// initialises a top-level variable nobody ever reads: the call must still happen
@@ -941,6 +953,10 @@ func (h *c17Hist) render(seed uint64) []*c17Segment {
 				fmt.Fprintf(&sb, "var rr%d string\nif true {\nrr%d = read(%s)\n}\n", id, id, pe)
 			case "fordirect":
 				fmt.Fprintf(&sb, "var rr%d string\nfor it%d := 0; it%d < 1; it%d++ {\nrr%d = read(%s)\n}\n", id, id, id, id, id, pe)
+			case "scopes":
+				nm := rng.Pick([]string{"tmpv", "scratch", "acc", "cur", "buf", "line0"}) // (no theme and no generated identifier uses these: a block variable may not shadow a global)
+				fmt.Fprintf(&sb, "func fn%d(a%d string) string {\n%s := a%d + \"!\"\nreturn %s\n}\nvar rr%d string\nif true {\n%s := %s\nk%d := fn%d(\"k\")\nrr%d = read(%s)\nprint(\"<<N>>\" + k%d)\n}\n",
+					id, id, nm, id, nm, id, nm, pe, id, id, id, nm, id)
 			case "shared":
 				usesShared = true
 				fmt.Fprintf(&sb, "rr%d := shr(%s)\n", id, pe)
